@@ -41,36 +41,38 @@ class CombineOutputs(Operation):
     ) -> OperationExecutionHandle:
         try:
             self._output_path.mkdir(parents=True, exist_ok=True)
+
+            for dep_id, dep_dir in self._deps_output_paths:
+                if (
+                    not dep_dir.is_dir()
+                    # Checks if the directory is empty
+                    or not any(True for _ in dep_dir.iterdir())
+                ):
+                    continue
+                copy_into = self._output_path / dep_id.name
+                relative_to_target = pathlib.Path(
+                    os.path.relpath(dep_dir, copy_into.parent)
+                )
+                if copy_into.is_symlink():
+                    # A link from an earlier run. It may be dangling by now (e.g.,
+                    # when the version it led to has been removed), in which case
+                    # `exists()` would be false.
+                    if not _is_conductor_link(copy_into, dep_id, ctx):
+                        # Somebody else's link: do not overwrite it.
+                        raise CombineOutputFileConflict(output_file=str(copy_into))
+                    copy_into.unlink()
+                elif copy_into.exists():
+                    # Unexpected - it should be a symlink.
+                    raise CombineOutputFileConflict(output_file=str(copy_into))
+                # The base data may be large, so we use symlinks to avoid copying.
+                copy_into.symlink_to(relative_to_target)
+
         except OSError as ex:
-            # E.g., something that is not a directory is in the way.
+            # E.g., something that is not a directory is in the way, or the
+            # output directory cannot be written.
             raise TaskFailed(task_identifier=self._identifier).add_extra_context(
                 str(ex)
             )
-
-        for dep_id, dep_dir in self._deps_output_paths:
-            if (
-                not dep_dir.is_dir()
-                # Checks if the directory is empty
-                or not any(True for _ in dep_dir.iterdir())
-            ):
-                continue
-            copy_into = self._output_path / dep_id.name
-            relative_to_target = pathlib.Path(
-                os.path.relpath(dep_dir, copy_into.parent)
-            )
-            if copy_into.is_symlink():
-                # A link from an earlier run. It may be dangling by now (e.g.,
-                # when the version it led to has been removed), in which case
-                # `exists()` would be false.
-                if not _is_conductor_link(copy_into, dep_id, ctx):
-                    # Somebody else's link: do not overwrite it.
-                    raise CombineOutputFileConflict(output_file=str(copy_into))
-                copy_into.unlink()
-            elif copy_into.exists():
-                # Unexpected - it should be a symlink.
-                raise CombineOutputFileConflict(output_file=str(copy_into))
-            # The base data may be large, so we use symlinks to avoid copying.
-            copy_into.symlink_to(relative_to_target)
 
         return OperationExecutionHandle.from_sync_execution()
 
